@@ -178,14 +178,12 @@ def model(ctx):
     return n, problems
 
 
-_cache = {}
-
-
 def report(ctx, prop, rule):
-    key = id(ctx.repo)
-    if key not in _cache:
-        _cache[key] = model(ctx)
-    n, problems = _cache[key]
+    # one model run per check run (never keyed by id(): ids are reused after garbage collection)
+    memo = ctx.__dict__.setdefault('_model_memo', {})
+    if 'ctor_model' not in memo:
+        memo['ctor_model'] = model(ctx)
+    n, problems = memo['ctor_model']
     f = ctx.repo.func(P + "Parameters._setup_params")
     ctx.abstract_cases += n
     bad = problems[prop]
